@@ -235,7 +235,7 @@ def _decorators(fn):
     return out
 
 
-def resolve_helper(prog, cls, module, call, public=()):
+def resolve_helper(prog, cls, module, call, public=(), exclude=()):
     """(helper FunctionDef, defining ClassInfo or None, skip_first_param) for a call to a private helper of the same
     class (self.x / cls.x / ClassName.x) or module (x); None when the callee is not such a helper."""
     f = call.func
@@ -268,7 +268,7 @@ def resolve_helper(prog, cls, module, call, public=()):
             return None
     else:
         return None
-    if not (_is_private(name) or name in public):
+    if not (_is_private(name) or name in public) or name in exclude:
         return None
     if owner is not None and name in owner.properties:
         return None
@@ -424,7 +424,8 @@ def _names_in(node):
 
 
 class _Inliner:
-    def __init__(self, prog, cls, module, public=(), depth=3):
+    def __init__(self, prog, cls, module, public=(), depth=3, exclude=()):
+        self.exclude = tuple(exclude)
         self.prog = prog
         self.cls = cls
         self.module = module
@@ -435,7 +436,7 @@ class _Inliner:
 
     # -- expression helpers: body is a single ``return E``
     def _expr_helper(self, call, stack):
-        r = resolve_helper(self.prog, self.cls, self.module, call, self.public)
+        r = resolve_helper(self.prog, self.cls, self.module, call, self.public, self.exclude)
         if r is None:
             return None
         fn, owner, skip = r
@@ -490,7 +491,7 @@ class _Inliner:
             call, kind = st.value, 'return'
         else:
             return None
-        r = resolve_helper(self.prog, self.cls, self.module, call, self.public)
+        r = resolve_helper(self.prog, self.cls, self.module, call, self.public, self.exclude)
         if r is None:
             return None
         fn, owner, skip = r
@@ -559,7 +560,7 @@ class _Inliner:
         for root in roots:
             for c in walk_no_nested(root):
                 if isinstance(c, ast.Call) and c is not top:
-                    r = resolve_helper(self.prog, self.cls, self.module, c, self.public)
+                    r = resolve_helper(self.prog, self.cls, self.module, c, self.public, self.exclude)
                     if r is None or r[0].name in stack or len(stack) >= self.depth:
                         continue
                     body = _body_no_doc(r[0])
@@ -632,12 +633,12 @@ class _Inliner:
         return out
 
 
-def inline(prog, cls, fn, public=(), depth=3, module=None):
+def inline(prog, cls, fn, public=(), depth=3, module=None, exclude=()):
     """A copy of ``fn`` with calls to private helpers (and the named ``public`` ones) of the same class / module inlined.
     The copy has ``_inlined`` (list of helper names), ``_cls`` and parent links; node line numbers are those of the
     original statements (helper statements keep the helper's, and carry ``_src_module`` / ``_src_fn``)."""
     cache = prog.__dict__.setdefault('_inline_cache', {})
-    key = (id(fn), cls.qual if cls is not None else None, tuple(public), depth)
+    key = (id(fn), cls.qual if cls is not None else None, tuple(public), depth, tuple(exclude))
     if key in cache:
         return cache[key]
     if module is None:
@@ -646,7 +647,7 @@ def inline(prog, cls, fn, public=(), depth=3, module=None):
         for m in prog.modules.values():
             if fn in m.functions.values():
                 module = m
-    inl = _Inliner(prog, cls, module, public, depth)
+    inl = _Inliner(prog, cls, module, public, depth, exclude)
     caller_names = _names_in(fn) | set(func_params(fn))
     new = clone(fn)
     new.body = inl._block(list(new.body), caller_names, [fn.name])
